@@ -337,6 +337,44 @@ func H_C02(v *zzverif.T) {
 	checkFrame("repeat", listA, snapsA)
 	same("C02.repeated-run-equals-first", r3, r1)
 
+	// the very same tensor OBJECTS once more, after the caller has written new values into them (a Run is a
+	// function of its inputs' current contents, not of their identity)
+	if v.Has("rewrite") && v.CBool("rewrite") && len(inA) > 0 {
+		var inN []zzTData
+		for _, spec := range g.inputs {
+			inN = append(inN, zzParseSpec(v, spec, "n_"))
+		}
+		for i, d := range inN {
+			dense, ok := listA[i].(*tensor.Dense)
+			if !ok {
+				continue
+			}
+			switch d.kind {
+			case "f32":
+				for k, x := range d.f {
+					dense.Set(k, x)
+				}
+			case "bool":
+				for k, x := range d.b {
+					dense.Set(k, x)
+				}
+			}
+		}
+		rN, ok := run("rewritten", m, tA)
+		if !ok {
+			return
+		}
+		if fresh := load(); fresh != nil {
+			tN, _, _ := mkInputs(inN)
+			rf, ok := run("fresh-rewritten", fresh, tN)
+			if !ok {
+				return
+			}
+			same("C02.run-on-rewritten-tensors-equals-fresh-model", rN, rf)
+		}
+		return // (the tensors no longer hold the values of the first Run)
+	}
+
 	// an output of the first Run fed to a later Run
 	if fb := v.CStr("feedback"); fb != "" && r1.err == nil {
 		p := zzSplit(fb, '>')
